@@ -137,7 +137,12 @@ class Contract:
         if self.requires is not None:
             for (name, c) in self.requires(E, ctx):
                 E.prove("call %s/requires:%s" % (short, name), c, kind="call")
-        cases = self.cases_fn(E, ctx)
+        try:
+            cases = self.cases_fn(E, ctx)
+        except (KeyError, AttributeError, TypeError, IndexError) as e:
+            # the contract was written for a different shape of arguments (e.g. another kind of store object):
+            # the unit leaves the supported subset, it is not a verdict
+            raise Unsupported("contract of %s does not apply to these arguments: %r" % (self.qualname, e))
         k = E.choose([c.when for c in cases])
         case = cases[k]
         for o in (case.modifies or []):
